@@ -46,9 +46,16 @@ from prov.model import (
 import pydot
 
 try:
-    from html import escape
+    from html import escape as _html_escape
 except ImportError:
-    from cgi import escape
+    from cgi import escape as _html_escape
+
+
+def escape(text):
+    """Escape a text for an HTML-like Graphviz label: HTML special characters,
+    and backslashes, which Graphviz would otherwise interpret as escape
+    sequences (\\N is replaced by the node's name, \\G by the graph's, ...)."""
+    return _html_escape(text).replace("\\", "\\\\")
 
 __author__ = "Trung Dong Huynh"
 __email__ = "trungdong@donggiang.com"
